@@ -69,7 +69,8 @@ def h_element_single_policy(ctx):
     from gnpy.core.exceptions import ParametersError, ConfigurationError
     from gnpy.core.parameters import RoadmParams
     subset = ctx.choice('element_keys', [(0,), (1,), (2,), (0, 1), (0, 2), (1, 2), (0, 1, 2)])
-    base = {'add_drop_osnr': 38, 'pmd': 0, 'pdl': 0, 'restrictions': {'preamp_variety_list': [], 'booster_variety_list': []}}
+    base = {'add_drop_osnr': 38, 'pmd': 0, 'pdl': 0, 'restrictions': {'preamp_variety_list': [], 'booster_variety_list': []},
+            'roadm-path-impairments': []}
     vals = {i: _val(ctx, KEYS[i], 'el') for i in subset}
     params = dict(base, **{KEYS[i]: vals[i] for i in subset})
     for how in ('RoadmParams', 'Roadm'):
